@@ -298,6 +298,35 @@ fn run(ctx: &mut Ctx) {
         judge_vertices(ctx, &ts, "negative-radius helices among ordinary tracks");
         ctx.count("track sets with negative-radius helices");
     });
+    // ---- helices of radius exactly 0 (straight lines parallel to the beamline), +-0.0, subnormal and tiny radii, alone
+    // (every track of the winning cluster degenerate) and mixed with ordinary tracks
+    let n = ctx.tier.pick(600, 30_000);
+    ctx.cases("zero-radius", n, |ctx, i, rng| {
+        let z = rng.range(-1.0, 1.0);
+        let mut ts: Vec<Track> = Vec::new();
+        for _ in 0..2 + rng.usize(3) {
+            let rad = *rng.pick(&[0.0, -0.0, 5e-324, -5e-324, 1e-300, 1e-17, 1e-9]);
+            let d = rng.range(0.0, 0.05);
+            let a = rng.range(-PI, PI);
+            let h = *rng.pick(&[1.5, -1.5, 0.3, 3.0]);
+            let t0 = rng.range(-0.6, -0.2);
+            ts.push(vh::track_from_helix([d * a.cos(), d * a.sin(), z + rng.range(-0.015, 0.015), rad, rng.range(-PI, PI), h], t0, t0 + rng.range(0.5, 1.2)));
+        }
+        if i % 3 == 0 {
+            let (zz, pitch) = (z + rng.range(-0.01, 0.01), *rng.pick(&PITCHES));
+            ts.push(synthetic_track(rng, zz, pitch));
+        }
+        if i % 5 == 0 {
+            // a second, ordinary cluster elsewhere
+            for _ in 0..2 {
+                let (zz, pitch) = (z + 0.4 + rng.range(-0.01, 0.01), rng.range(-1.0, 1.0));
+                ts.push(synthetic_track(rng, zz, pitch));
+            }
+        }
+        rng.shuffle(&mut ts);
+        judge_vertices(ctx, &ts, "zero-radius helices");
+        ctx.count("track sets with zero-radius helices");
+    });
     ctx.require("cluster_spacepoints returned", 10);
     ctx.require("track sets that produced a primary vertex", 10);
 }
